@@ -34,10 +34,15 @@ class C01(Check):
             seeds.append(("block", b, "corpus"))
         # generated descriptions, encoded by the model
         descs = []
+        shaped = []          # (description, shape) of transactions whose RingCT parts are also fed to the two public
+                             # decoders that take their counts from the caller
         shapes = G.grid_shapes()
         rng.shuffle(shapes)
         for sh in shapes[:(120 if not thorough else 300)]:
-            descs.append(("tx", G.tx_desc(rng, **sh)))
+            d = G.tx_desc(rng, **sh)
+            descs.append(("tx", d))
+            if sh["version"] != 1 and sh["in_kinds"] and len(shaped) < (60 if not thorough else 200):
+                shaped.append((d, sh))
         for _ in range(250 if not thorough else 900):
             descs.append(("tx", G.tx_desc(rng, **G.random_shape(rng, small=True))))
         for _ in range(20 if not thorough else 60):
@@ -68,6 +73,36 @@ class C01(Check):
             if T == "tx":
                 # the prefix of a transaction is itself a parsable object
                 seeds.append(("prefix", b, "generated-as-prefix"))
+        # RctSigBase::consensus_decode(r, inputs, outputs) / RctSigPrunable::consensus_decode(r, type, inputs, outputs, mixin)
+        if shaped:
+            encs = self.ctx.model_many(["enc %s tx %s" % (sz, " ".join(d)) for d, _ in shaped])
+            parts = self.impl_query(["txparts %s %s" % (sz, e.split(" ")[1]) for e in encs])
+            for (d, sh), e, pt in zip(shaped, encs, parts):
+                b = bytes.fromhex(e.split(" ")[1])
+                w = pt.split(" ")
+                if w[0] != "OK" or w[4] == "-":
+                    continue
+                p_, q_ = int(w[2]), int(w[3])
+                n_in, n_out, t = len(sh["in_kinds"]), len(sh["out_tagged"]), sh["rct_type"]
+                mixin = (sh["ring"] - 1) if sh["in_kinds"][0] == "key" else 0
+                base, prun = b[p_:q_], b[q_:]
+                for ni, no in ((n_in, n_out), (n_in + 1, n_out), (n_in, n_out + 1), (0, 0), (n_in, 0), (2 ** 20 + 1, n_out),
+                               (n_in, 2 ** 20 + 1), (2 ** 40, 2 ** 40)):
+                    cs.append(Case("dec_rctbase %s %d %d %s" % (sz, ni, no, base.hex() or "-"), "rctbase-direct"))
+                mb = G.mutations_at_every_offset(base, rng)
+                for m in rng.sample(mb, min(40, len(mb))):
+                    cs.append(Case("dec_rctbase %s %d %d %s" % (sz, n_in, n_out, m.hex() or "-"), "rctbase-direct-mut"))
+                if t != 0 and len(prun) < 20000:
+                    for ni, no, mx in ((n_in, n_out, mixin), (n_in + 1, n_out, mixin), (n_in, n_out, mixin + 1), (n_in, n_out + 1, mixin),
+                                       (0, 0, 0), (n_in, n_out, 2 ** 20), (2 ** 21, n_out, mixin), (1, 1, 2 ** 40)):
+                        cs.append(Case("dec_rctprunable %s %d %d %d %d %s" % (sz, t, ni, no, mx, prun.hex() or "-"), "rctprunable-direct"))
+                    for tt in range(7):
+                        cs.append(Case("dec_rctprunable %s %d %d %d %d %s" % (sz, tt, n_in, n_out, mixin, prun.hex() or "-"),
+                                       "rctprunable-direct-othertype"))
+                    mm = G.mutations_at_every_offset(prun, rng)
+                    for m in rng.sample(mm, min(30, len(mm))):
+                        cs.append(Case("dec_rctprunable %s %d %d %d %d %s" % (sz, t, n_in, n_out, mixin, m.hex() or "-"),
+                                       "rctprunable-direct-mut"))
         nseed = {}
         for T, b, cls in seeds:
             hx = b.hex() or "-"
@@ -117,6 +152,13 @@ class C01(Check):
         if w[0] in ("PANIC", "ABORT", "TIMEOUT", "SIZES-MISMATCH"):
             return "implementation did not return a value or an error: " + w[0]
         a = case.line.split(" ")
+        if a[0] in ("dec_rctbase", "dec_rctprunable") and w[0] == "OK":
+            inp = "" if a[-1] == "-" else a[-1]
+            n = int(w[1])
+            out = "" if w[2] == "-" else w[2]
+            if out != inp[:2 * n] or 2 * n > len(inp):
+                return "%s consumed %d bytes but the parsed value serialises to different bytes" % (a[0], n)
+            return None
         if a[0] == "reser" and w[0] == "OK":
             inp = "" if a[3] == "-" else a[3]
             n = int(w[1])
